@@ -113,6 +113,8 @@ func allSpecs() []Spec {
 		Spec{Kind: "traceql", Q: `{.a="b"} | count() > 2`, Limit: 10},
 		Spec{Kind: "traceql", Q: `{.a="b"} | avg(duration) > 1s`, Limit: 10},
 		Spec{Kind: "traceql", Q: `{.a="b"} | max(.x) >= 3`, Limit: 10, Cluster: true},
+		Spec{Kind: "traceql", Q: `{.a="b"} | max(.span.foo) > 1`, Limit: 10},          // an attribute literally named span.foo
+		Spec{Kind: "traceql_complex", Q: `{.a="b"} | sum(.resource.x) > 1`, Limit: 1}, // the same through the per-portion loop
 		// --- TraceQL: complex (&& / || between span selectors), simple and portioned execution
 		Spec{Kind: "traceql", Q: `{.a="b"} && {.c="d"}`, Limit: 10},
 		Spec{Kind: "traceql", Q: `{.a="b"} || {.c="d"} && {.e="f"}`, Limit: 10},
